@@ -41,4 +41,6 @@ class VarRange(MetaHandlerGenerator):
         return str(self.options)
 
     def __class_getitem__(cls, args):
-        return VarRange(*args)
+        # VarRange[[a, b, c]] hands the list over as it is, VarRange[a, b, c] a tuple, VarRange[a] the bare element: the
+        # refinement takes ONE argument, the collection of its options
+        return VarRange(args if isinstance(args, list) else list(args) if isinstance(args, tuple) else [args])
